@@ -535,6 +535,8 @@ class _Impl:
         self.next_id = 1
         self.paused = False
         self.dropped = 0
+        self.sender_msg = None      # behind the wrapper: ONE Message object the sender re-uses for every LLUDP send
+        self.mutations = 0
 
     def log(self, e):
         """-> (observable result 1/0/2, raised?)"""
@@ -545,13 +547,50 @@ class _Impl:
             eid = self.next_id
             self.next_id += 1
         if e["kind"] == "LLUDP":
-            ent = build_entry(e, eid)
-            st, r = impl_call(self.front.log_lludp_message, None, None, ent.message)
+            msg = build_entry(e, eid).message
+            if self.wrapped:
+                # Environment (FilterLog!Mutate): the sender re-uses one Message object across sends and keeps changing it
+                # afterwards.  The log must hold the message AS LOGGED.  (Only behind the WrappingMessageLogger, which
+                # freezes what it hands on; a bare FilteringMessageLogger documents that it never copies.)
+                if self.sender_msg is None:
+                    self.sender_msg = msg
+                else:
+                    self._overwrite(self.sender_msg, msg)
+                msg = self.sender_msg
+            st, r = impl_call(self.front.log_lludp_message, None, None, msg)
+            if self.wrapped:
+                self._scramble(msg, eid)
         else:
             st, r = impl_call(self.front.add_log_entry, build_entry(e, eid))
         if st != "ok":
             return 2, r
         return (2 if self.wrapped else (1 if r else 0)), ""
+
+    @staticmethod
+    def _overwrite(dst, src):
+        """Re-use `dst` for the next send: same object, the content of `src`."""
+        dst.name = src.name
+        dst.blocks = src.blocks
+        dst.meta = dict(src.meta)
+        dst.packet_id = src.packet_id
+        dst.direction = src.direction
+
+    def _scramble(self, msg, eid):
+        """After the send the sender changes everything the filters and the entry tag look at."""
+        self.mutations += 1
+        for bl in msg.blocks.values():
+            for blk in bl:
+                for var, val in list(blk.vars.items()):
+                    if isinstance(val, bytes):
+                        blk[var] = bytes(len(val))              # packed fields stay unpackable
+                    elif isinstance(val, int):
+                        blk[var] = "scrambled"
+                    else:
+                        blk[var] = 5 if self.mutations % 2 else 0
+        for k in ("Q", "R"):
+            msg.meta[k] = "zz" if isinstance(msg.meta.get(k), int) else 1 + (self.mutations % 2)
+        msg.name = "Scrambled" if msg.name != "Scrambled" else "Foo"
+        msg.packet_id = 1000000 + self.mutations
 
     def set_filter(self, toks):
         return impl_call(self.logger.set_filter, toks_text(toks))
@@ -1375,6 +1414,9 @@ def run(chk: Check):
         "re-imported entries are compared through filters only when they hold no vector field (LLSD has no vector type), and through "
         "a container-insensitive canonical projection + the serialized datagram for the logged message",
         "entries are tagged through packet_id / event body / request path to recognise them in list(logger)",
+        "behind the WrappingMessageLogger the driver sends every LLUDP message through ONE re-used Message object and overwrites "
+        "its name, fields, metadata and packet id right after each send (FilterLog!Mutate: no effect on the log); EQ events and "
+        "HTTP flows are not mutated (their entries keep a reference to the caller's object; see report)",
     ]
     agg = Agg()
     quick = chk.tier == "quick"
